@@ -859,7 +859,15 @@ class Interp:
         if isinstance(st.value, ast.Constant):
             return
         if isinstance(st.value, ast.Yield):
-            env.lookup("__yield__").append(self.eval(st.value.value, env) if st.value.value else None)
+            v = self.eval(st.value.value, env) if st.value.value else None
+            try:
+                hook = env.lookup("__with_hook__")
+            except Exception:  # noqa: BLE001
+                hook = None
+            if hook is not None:
+                hook(v)
+                return
+            env.lookup("__yield__").append(v)
             return
         if _is_logging_call(st.value):
             if self.effects is not None:
@@ -1094,7 +1102,61 @@ class Interp:
             if st.finalbody:
                 self.exec_block(st.finalbody, env)
 
+    def _generator_cm(self, call, env):
+        """If `call` invokes a repository function decorated with contextlib.contextmanager, return (function, args, kwargs)."""
+        if not isinstance(call, ast.Call):
+            return None
+        try:
+            f = self.eval(call.func, env)
+        except Exception:  # noqa: BLE001
+            return None
+        inner = getattr(f, "__wrapped__", None)
+        if inner is None or not isinstance(inner, types.FunctionType) or not interpretable(inner):
+            return None
+        try:
+            node = func_node(inner)
+        except Exception:  # noqa: BLE001
+            return None
+        if not _is_generator(node):
+            return None
+        args = [self.eval(a, env) for a in call.args]
+        kwargs = {k.arg: self.eval(k.value, env) for k in call.keywords}
+        return inner, node, args, kwargs
+
     def x_With(self, st, env):
+        # `with cm(...) as x: BODY` for a generator-based context manager defined in the repository: the generator body is
+        # interpreted and BODY runs at its `yield`, so an exception of BODY propagates through the generator's own
+        # try/except/finally exactly as contextlib throws it in (no native execution of repository code)
+        if len(st.items) >= 1:
+            g = self._generator_cm(st.items[0].context_expr, env)
+            if g is not None:
+                inner, node, args, kwargs = g
+                globs = inner.__globals__
+                genv0 = Env(globs=globs)
+                clo = Closure(node, genv0, inner.__name__, inner.__qualname__)
+                clo.defaults = (list(inner.__defaults__ or ()), dict(inner.__kwdefaults__ or {}))
+                genv = self.bind(clo, args, kwargs)
+                rest = ast.With(items=st.items[1:], body=st.body) if len(st.items) > 1 else None
+                state = {"yielded": 0}
+
+                def hook(value):
+                    state["yielded"] += 1
+                    if st.items[0].optional_vars is not None:
+                        self.assign(st.items[0].optional_vars, value, env)
+                    if rest is not None:
+                        ast.copy_location(rest, st)
+                        self.x_With(rest, env)
+                    else:
+                        self.exec_block(st.body, env)
+
+                genv.vars["__with_hook__"] = hook
+                try:
+                    self.exec_block(node.body, genv)
+                except _Return:
+                    pass
+                if state["yielded"] != 1:
+                    raise EngineError(f"generator context manager {inner.__qualname__} yielded {state['yielded']} times")
+                return
         mgrs = []
         try:
             for item in st.items:
